@@ -482,6 +482,12 @@ func (ch *channel) handlePacket(packet []byte) error {
 			return fmt.Errorf("ssh: invalid window update for %d bytes", msg.AdditionalBytes)
 		}
 	case *channelRequestMsg:
+		if ch.direction == channelOutbound && !ch.decided {
+			// The application does not have this channel yet, so nothing
+			// services its requests: queueing them could stall the mux
+			// read loop for good.
+			return errors.New("ssh: channel request received before the channel open was answered")
+		}
 		req := Request{
 			Type:      msg.Request,
 			WantReply: msg.WantReply,
